@@ -527,7 +527,7 @@ MODULE_CONTRACTS["verif_arm64.rs"] = _A64_CONTRACTS
 MODULE_CONTRACTS["verif_a64gen.rs"] = _A64_CONTRACTS
 MODULE_DEPS = {"verif_arm64.rs": ["verif_a64gen.rs"]}
 HARNESSES["c15_abs_modular"]["note"] = "callee contracts: emit_br proved by #[kani::proof_for_contract]; emit_movz/movk_from_address stated by T3 and discharged by the plain harness c15_from_address (same predicate for all inputs) because Kani's contract instrumentation needs ~60 GB on them"
-_FL_SHARED = {"C02.guard.kept.flavours": ["C14", "C12"], "C02.no-early-restore": ["C14"], "C02.order.once.flavours": ["C14", "C12"], "C02.order.reverse.flavours": ["C14"]}
+_FL_SHARED = {"C02.guard.kept.flavours": ["C14", "C12"], "C02.no-early-restore": ["C14", "C12"], "C02.order.once.flavours": ["C14", "C12"], "C02.order.reverse.flavours": ["C14"]}
 H("c02_order_async_refake", props=["C02", "C14", "C12"], fns=_INJ_FNS + _ASYNC_FNS, shared=_FL_SHARED, timeout=400,
   bounded="one history: fake / unchecked re-fake / re-fake of the same async function (K=3), core replaced by a tagging recorder", **_MODS_INJ)
 H("c02_order_sync_flavours", props=["C02", "C12"], fns=_INJ_FNS, shared=_FL_SHARED, timeout=400,
@@ -752,3 +752,20 @@ VERUS["gate_unbounded"] = dict(
 # installed, then a fresh thread's injector) decides.
 STATIC["backend_state_after_refusal"] = dict(props=["C05"], fn=scan_backend_state, obligation="C05.refusal.no-hidden-state",
                                              replay_static=lambda verif: _replay_bin("c05_refusal_relife", [], verif), soft=True)
+
+# wave 9 (seed C17-i): the flush of a restoration may not be deferred past a point that can panic
+H("c17_drop_restore_fault", props=["C17", "C05", "C02"], fns=_INJ_FNS + [(COM, "drop"), (COM, "patch_function")], expects_panic=True, covers=[],
+  covers_unreachable=["COVER:drop-returned-despite-failing-restoration"], shared={"C17.unwind.flushed": ["C05"], "C17.unwind.restored": ["C05", "C02"]},
+  bounded="one history: an older guard whose restoration is refused (mprotect) below one real installation; 16-byte pages", timeout=600, **_MODS_INJ)
+
+# wave 9 (seed C12-i): a trampoline released while the injector lives (and then again at drop) is a C12 matter as
+# much as a C02 one: "released exactly once when the injector goes away"
+for _k in range(1, 8):
+    HARNESSES["c02_order_k%d" % _k]["shared"] = dict(HARNESSES["c02_order_k%d" % _k].get("shared", {}), **{"C02.guard.kept": ["C12"], "C02.order.once": ["C12"]})
+
+# wave 9 (seed C03-i): trampolines packed into shared pages by a core that keeps process-wide state; the packing
+# error needs ~257 live installations. Same frame assumption, checked by the scan; when the core keeps state the
+# long-history native replay (k booleans + 300 replacements in one injector, victim pages fencing the trampoline
+# page) decides.
+STATIC["backend_state_many_fakes"] = dict(props=["C03", "C12"], fn=scan_backend_state, obligation="C03.frame.no-hidden-state",
+                                          replay_static=lambda verif: _replay_bin("c03_many_fakes", [], verif), soft=True)
